@@ -2059,6 +2059,14 @@ class Exec:
                 t = fn(self.seq(subj, st))
                 st.ghost.setdefault('regex', []).append((pat, rep, self.seq(subj, st), t))
                 return [(st, VTuple([VBytes(t), VInt(fresh('nsub'))]) if name == 're.subn' else VBytes(t))]
+            if name in ('os.path.basename', 'os.path.dirname', 'os.path.normpath', 'os.path.abspath', 'os.path.realpath', 'os.path.expanduser',
+                        'os.path.normcase') and len(A) == 1 and isinstance(A[0], VStr) and (A[0].z is not None or isinstance(A[0].s, str)):
+                # a path function of text: some other text in general (uninterpreted); of a literal: what posixpath computes
+                if isinstance(A[0].s, str) and A[0].z is None and name.split('.')[-1] in ('basename', 'dirname', 'normpath', 'normcase'):
+                    import posixpath
+                    return [(st, VStr(s=getattr(posixpath, name.split('.')[-1])(A[0].s)))]
+                fn = z3.Function('OS_PATH[%s]' % name.split('.')[-1], BYTES, BYTES)
+                return [(st, VStr(z=fn(self.strseq(A[0])), cp=A[0].cp))]
             if name == 'unicodedata.normalize' and len(A) == 2 and isinstance(A[0], VStr) and isinstance(A[0].s, str) and isinstance(A[1], VStr):
                 # Unicode normalisation of text: some OTHER text in general (uninterpreted; no law such as idempotence is assumed)
                 if A[1].z is None and not isinstance(A[1].s, str):
